@@ -12,12 +12,14 @@ CHECKS = {
  "C01": ("model_checking", "6 C01",
          "AuthFlow.tla (handler ladder at store-call granularity, attacker-chosen requests, fault budget) is model-checked exhaustively for OkJustified/FaultNeverOk; every "
          "single (thorough: pair of) fault position on every path is exported by TLC and replayed through the real ExtAuthZFilter.Check on both stores (incl. single Redis-command faults), "
-         "and every recorded trace is validated by TLC against AuthMonitor.tla whose C01 monitors judge each OK verdict from the check's own store reads, IdP exchanges and faults.",
+         "and every recorded trace is validated by TLC against AuthMonitor.tla whose C01 monitors judge each OK verdict from the check's own store reads, IdP exchanges and faults "
+         "(a Redis command that failed counts as a store failure whether or not the store reported it; two instances of the service over one Redis are included).",
          "TLC exhaustive model checking of AuthFlow + TLC-exported fault/attacker scenarios replayed into real Check + TLC trace validation (AuthMonitor)"),
  "C02": ("model_checking", "6 C02",
-         "The adversarial token grammar (19 classes x login/refresh x configs, several rendered variants per class) is enumerated by TLC (Families.tla); the simulated IdP renders each class, "
+         "The adversarial token grammar (20 classes x login/refresh x configs, several rendered variants per class) is enumerated by TLC (Families.tla); the simulated IdP renders each class, "
          "knows its ground truth, and TLC validates on the recorded trace that every stored token came from the exchange of that check and is valid under ground truth, and that the upstream headers equal the bound tokens. "
-         "A forged refresh answer racing with a second check on the same session is explored at gate granularity.",
+         "A forged refresh answer racing with a second check on the same session is explored at gate granularity. Fetched key sets: KeySource.tla (per-URI cache, background refresh) is model-checked, its behaviours are replayed in real time into the real JWKS provider and "
+         "KeySourceTrace.tla explains every lookup by placing the unlogged refresh steps (a lookup returns only key sets its own URI served, never an older generation, the current one after the interval).",
          "TLC-enumerated token grammar replayed into real Check + TLC trace validation (AuthMonitor BoundOnlyIfValid/ForwardedEqBound)"),
  "C03": ("model_checking", "6 C03",
          "TLC enumerates compliant IdP answer shapes x configurations x requested URLs (Families!C03Space); a simulated browser follows the redirects through the real Check; TLC validates OnePass/NoRelogin on the trace.",
@@ -48,7 +50,8 @@ CHECKS = {
          "Refresh histories x provider policies (TLC-enumerated) over several token lifetimes are replayed; TLC validates that the refresh token sent is the stored, newest one, that the stored result is the merge, that later checks see it, and that failures end the session.",
          "TLC-enumerated refresh histories replayed into real Check + TLC trace validation (RefreshUsesLatest, RefreshMerge)"),
  "C12": ("model_checking", "6 C12",
-         "Both stores are validated operation by operation (result and projected real state) against SessionMap via StoreTrace.tla on TLC-generated transition-covering sequences and random long histories routed over two Redis-backed instances.",
+         "Both stores are validated operation by operation (result and projected real state) against SessionMap via StoreTrace.tla on TLC-generated transition-covering sequences and random long histories routed over two Redis-backed instances, with single failing Redis commands; "
+         "concurrent memory-store histories are searched for a linearization (LinTrace.tla), pairs of Redis operations at command granularity (RedisStore.tla); the reference's invariant is shown inductive by Apalache (SessionMapInd.tla, thorough tier).",
          "TLC state-graph-covering test generation from SessionMap + strict TLC trace validation of store operations"),
  "C13": ("model_checking", "6 C13",
          "Configurations with reserved/non-ASCII characters x URLs (TLC-enumerated); Location values are parsed with net/url, mapped to symbols, and TLC judges endpoint, own query, exact parameter map, S256 of the stored verifier, the restored URL and no-cache headers.",
@@ -61,7 +64,8 @@ CHECKS = {
          "TLC-enumerated shape grammar replayed into real Check; panics and ill-formed verdicts flagged by TLC trace validation"),
  "C06": ("other", "6 C06",
          "Entropy.tla is an attacker-knowledge closure over generator classes; TLC shows Secrecy holds exactly for the CSPRNG class. Every derivation action has an executable witness run against the real generator "
-         "built as Check builds it (time-window seed search for math/rand, correlation / repetition / shape tests over thousands of logins, duplicate ids among concurrently built generators), and AuthMonitor judges on system traces that no login "
+         "built as Check builds it (time-window seed search for math/rand, correlation / repetition / shape tests over thousands of logins, duplicate ids among concurrently built generators, 6400 logins answered in parallel by one server, "
+         "a slow entropy source with known content, two fresh processes), and AuthMonitor judges on system traces that no login "
          "redirect reuses the state, nonce, PKCE challenge or session id of another login. It decides the modelled generator classes only; the static call-graph clause is not claimed.",
          "TLC-checked attacker-knowledge model (Entropy.tla) bound to executable attack witnesses + TLC trace validation of value freshness"),
  "C17": ("model_checking", "6 C17",
@@ -73,8 +77,8 @@ CHECKS = {
          "TLC validates creator, own credentials/endpoints/settings and own timeouts. Shared-store findings are known findings.",
          "TLC model checking with the design choice as constant + TLC-enumerated two-filter histories + TLC trace validation"),
  "C19": ("model_checking", "6 C19",
-         "SecretSync.tla models Secrets of the controller's and of another namespace, deletion held by a finalizer, missing/empty keys and the filter->reference map; TLC checks OnlyReferencing and prints one event history per transition of the state graph plus random walks; "
-         "each is applied to controller-runtime's fake client and the real Reconcile, and TLC validates the secret held by every filter after every event; start-up refusal of cross-namespace references is checked.",
+         "SecretSync.tla models Secrets of the controller's and of another namespace, deletion held by a finalizer, missing/empty keys and the filter->reference map; TLC checks OnlyReferencing and prints one event history per transition of the state graph, random walks, and every history of one Secret up to a length; "
+         "each is applied to controller-runtime's fake client and the real Reconcile, and TLC validates the secret held by every filter after every event; start-up refusal of cross-namespace references is checked; at the token endpoint the assembled filter with the real controller is driven through rotations between and during checks.",
          "TLC state-graph-covering histories + random walks replayed into real Reconcile + TLC trace validation (SecretTrace)"),
  "C20": ("model_checking", "6 C20",
          "TLSTrust.tla models the pooled TLS configurations, the CA file and its watchers; TLC shows Rotation fails with one watcher per file (the repaired defect) and holds with one per configuration; transition-covering histories and random walks are replayed "
@@ -83,7 +87,7 @@ CHECKS = {
 }
 
 NOT_APPLICABLE = {
- "C16": "data races are a property of unsynchronised memory accesses under the Go memory model; a TLA+ model plus trace validation sees only what hooks log, and an unsynchronised access is precisely one no hook logs (DESIGN.md section 7)",
+ "C16": "data races are a property of unsynchronised memory accesses under the Go memory model; a TLA+ model plus trace validation sees only what hooks log, and an unsynchronised access is precisely one no hook logs (DESIGN.md section 9)",
 }
 PENDING = {}
 
